@@ -112,6 +112,9 @@ type Case struct {
 	// issue HLS requests at the same moment: every request consults the blacklist (and sweeps its expired entries) in
 	// a handler goroutine of its own
 	BlBurst int `json:"bl_burst,omitempty"`
+	// FpsClock: the harness owns nazalog.Clock (one second per published message): a group's 32-second video
+	// frame statistics fill within the workload
+	FpsClock bool `json:"fps_clock,omitempty"`
 	// Codec: index into codecSets (what publishers and the origin carry); single inputs deviate (op argument)
 	Codec int `json:"codec,omitempty"`
 }
@@ -178,6 +181,7 @@ func genCase(t *rapid.T) Case {
 	rnd := rand.New(rand.NewSource(int64(rapid.Uint64().Draw(t, "opSeed"))))
 	pauses := []int{0, 0, 0, 0, 0, 0, 1, 1, 1, 1, 20, 20, 200, 200, 1500, 1500, 60000, 260000}
 	c.Codec = []int{0, 0, 0, 1, 2, 3, 4, 5, 6}[rnd.Intn(9)]
+	c.FpsClock = rnd.Intn(3) == 0
 	if c.L3 {
 		c.BlBurst = []int{0, 0, 30, 250}[rnd.Intn(4)]
 	}
@@ -270,7 +274,7 @@ func classify(c Case) (bool, []string) {
 		labels = append(labels, "dispose:at-end")
 	}
 	for name, on := range map[string]bool{"hls": c.Hls, "hook": c.Hook, "push": c.Push, "record": c.Record, "l3": c.L3, "merge-write": c.Merge > 0,
-		"dummy-audio": c.DummyAudio, "static-pull": c.StaticPull, "linger>=1s": c.LingerMs >= 1000, "linger": c.LingerMs > 0, "lal-http-notify": c.Notify, "blacklist-expiry-burst": c.BlBurst > 0} {
+		"dummy-audio": c.DummyAudio, "static-pull": c.StaticPull, "linger>=1s": c.LingerMs >= 1000, "linger": c.LingerMs > 0, "lal-http-notify": c.Notify, "blacklist-expiry-burst": c.BlBurst > 0, "fps-clock": c.FpsClock} {
 		if on {
 			labels = append(labels, "cfg:"+name)
 		}
@@ -531,7 +535,7 @@ func run(c Case) *pbt.Violation {
 	// a replayed workload is repeated: the schedule is not owned by the harness, one execution proves little
 	attempts := 1
 	if replay {
-		attempts = 6
+		attempts = 4
 	}
 	start := time.Now()
 	for a := 0; a < attempts; a++ {
@@ -552,7 +556,7 @@ func run(c Case) *pbt.Violation {
 			if v := judge(o); v != nil {
 				return v
 			}
-			if replay && time.Since(start) > 75*time.Second {
+			if replay && time.Since(start) > 40*time.Second {
 				return nil
 			}
 		}
@@ -563,6 +567,6 @@ func run(c Case) *pbt.Violation {
 func TestConcurrency(t *testing.T) {
 	pbt.Run(t, pbt.Spec[Case]{
 		ID: "C20", Name: "workload", Gen: genCase, Run: run, Classify: classify,
-		Quick: 20, Thorough: 260, Isolate: true,
+		Quick: 16, Thorough: 260, Isolate: true,
 	})
 }
